@@ -84,6 +84,16 @@ Theorem C18_result_unique :
   firstn k r = order_limit_rows keys (Some k) rows.
 Proof. exact rows_unique. Qed.
 
+Theorem C18_limit_only_truncates :
+  forall keys k rows,
+  order_limit_rows keys (Some k) rows = firstn k (order_limit_rows keys None rows).
+Proof. exact rows_limit_is_prefix. Qed.
+
+Theorem C18_larger_limit_extends_smaller :
+  forall keys k k' rows, k <= k' ->
+  order_limit_rows keys (Some k) rows = firstn k (order_limit_rows keys (Some k') rows).
+Proof. exact rows_limit_monotone. Qed.
+
 (* ---- non-vacuity ---- *)
 Example ex_limit3 : limit_clause (mkAnn None (Some 3%Z) false false false false) = " LIMIT 3".
 Proof. reflexivity. Qed.
